@@ -39,6 +39,14 @@ def parse_argspec(x):
         return A('v', delta)
     if x == 'verb':
         return A('verb', delta)
+    if x.startswith('e{') and x.endswith('}'):
+        r = A('e', delta)
+        r['chars'] = x[2:-1]
+        return r
+    if x in ('AnyDelimited', 'AnyDelimitedOptional'):
+        r = A('any', delta)
+        r['spec'] = x
+        return r
     raise ValueError(x)
 
 
@@ -53,6 +61,13 @@ RAW = {
         envs={'e': dict(args=['[', '{'], body='nodes'), 'q': dict(args=[], body='math'),
               'p': dict(args=['*'], body='nodes')},
         specials={'~': [], '--': [], '---': [], '&': [], '!': ['{']},
+        unknown_macro=True, unknown_env=True),
+    # only for checks that drive the real parser alone (kinds not modelled in Parser.tla)
+    'kext': dict(
+        macros={'tens': ['e{^_}', '{'], 'emb': ['e{_^|}'], 'any': ['AnyDelimited'], 'anyo': ['AnyDelimitedOptional', '{'],
+                'm': ['{'], 'v': ['v'], 's': ['*', 't+', '{']},
+        envs={'e': dict(args=['e{^_}'], body='nodes')},
+        specials={'~': []},
         unknown_macro=True, unknown_env=True),
     'knounk': dict(
         macros={'m': ['{'], 'o': ['[', '{'], 'z': []},
@@ -85,6 +100,10 @@ def _real_argspec(a):
     from pylatexenc.latexnodes.parsers import LatexStandardArgumentParser
     x = (a['k'] if a['k'] not in 'trd' else a['k'] + chr(a['a']) + (chr(a['b']) if a['k'] in 'rd' else ''))
     x = {'m': '{', 'o': '[', 's': '*'}.get(x, x)
+    if a['k'] == 'e':
+        x = 'e{%s}' % a['chars']
+    if a['k'] == 'any':
+        x = a['spec']
     delta = None
     if a['delta'] == 'text':
         delta = ParsingStateDeltaLeaveMathMode()
@@ -224,33 +243,41 @@ def _fun(pairs, empty='[x \\in {} |-> <<>>]'):
 def names_in_atoms(name, atoms, K):
     """Macro / environment names that strings of <= K atoms can contain.  For the extracted default
     database the signature table handed to TLC is restricted to these names (the full table makes TLC
-    slow); soundness: any *other* name the atoms can form must be unknown to the real database too,
-    which is asserted here."""
+    slow).  Sound because every name that the atoms can *form* -- inside one atom, or by a bare escape
+    atom followed by the first character(s) of the next atoms, or by letters appended to a control word --
+    is enumerated here and kept whenever the database knows it."""
     import re
     import itertools
     d = describe(name)
     letters = [a for a in atoms if len(a) == 1 and a.isalpha()]
+    words = {''}
+    for k in range(1, K + 1):
+        for tup in itertools.product(letters, repeat=k):
+            words.add(''.join(tup))
     macs, envs = set(), set()
     for a in atoms:
         for m in re.finditer(r'\\([A-Za-z]+|.)', a, re.S):
-            if m.group(1) not in ('begin', 'end'):
-                macs.add(m.group(1))
-        for m in re.finditer(r'\\(?:begin|end)\{([^}]*)\}', a):
+            base = m.group(1)
+            if base.isalpha() and m.end() == len(a):
+                for w in words:                    # letters appended to a trailing control word
+                    macs.add(base + w)
+            else:
+                macs.add(base)
+        for m in re.finditer(r'\\(?:begin|end)\s*\{([^}]*)\}', a):
             envs.add(m.group(1))
-    # names formable by appending letter atoms / wrapping letter atoms in \begin{..}
-    formable_m, formable_e = set(), set()
-    for k in range(1, K + 1):
-        for tup in itertools.product(letters, repeat=k):
-            w = ''.join(tup)
-            formable_m.add(w)
-            formable_e.add(w)
-            for base in macs:
-                if base.isalpha():
-                    formable_m.add(base + w)
-    bad = [x for x in formable_m - macs if x in d['macros']] + [x for x in formable_e - envs if x in d['envs']]
-    if bad:
-        raise ValueError('atoms can form names known to the database but not in the restricted table: %r' % bad[:5])
-    return macs | (formable_m & set(d['macros'])), envs | (formable_e & set(d['envs']))
+    if any(a.endswith('\\') and not a.endswith('\\\\') for a in atoms):
+        for a in atoms:                             # bare escape + first character(s) of the next atom
+            c = a[0]
+            if c.isalpha():
+                for w in words:
+                    macs.add(w) if w else None
+                    macs.add(c + w)
+            else:
+                macs.add(c)
+    for w in words:
+        if w:
+            envs.add(w)
+    return (macs & set(d['macros'])), (envs & set(d['envs']))
 
 
 def tla_defs(name, prefix='', only=None):
